@@ -452,7 +452,7 @@ func TestVerif_C18(t *testing.T) {
 		}
 	}
 	// random cases
-	n := c.N(60, 1500)
+	n := c.N(60, 4000)
 	for s := int64(0); s < n; s++ {
 		myIdx := idx
 		idx++
